@@ -86,6 +86,8 @@ SPEC["C09"] = dict(regex_q="^VerifC09(f|ft2|j|reset)_", hgen_extra=["-jmode"], p
 JSON_STRINGS = dict(key="f01", schema="f01_scalars.tl", props=["C34"], regex="^VerifC34(String|StringBytes)$", params_q={"jstrlen": 3}, params_t={"jstrlen": 4}, libs=["zz_verif_c34.go"], only=["True"],
                     wall_q="300s", wall_t="1800s",
                     text="string leaves beyond the value bound: the JSON string writers of pkg/basictl (string and []byte versions, which generated code calls for every string leaf and dictionary key) on EVERY byte string of <= jstrlen bytes: valid JSON, reads back identically through the generated Json2ReadString/Json2ReadStringBytes, both versions emit the same bytes (harness shared with C34)")
+SPEC["C03"]["extra_runs"] = [dict(key="f07", schema="f07_dicts.tl", props=["C03"], regex="^VerifC03x_", params_q={}, params_t={}, libs=["zz_verif_c03_f07.go"], only=["F07VecDict"], wall_q="60s", wall_t="300s",
+                                  text="typed case f07.vecDict: dictionaries whose values own memory (vectors, nested dictionaries) with two entries, symbolic keys and elements (entries must not alias after reading)")]
 SPEC["C10"]["extra_runs"] = [dict(JSON_STRINGS, regex="^VerifC34StringBytes$")]
 SPEC["C18"] = dict(params_q={"L": 2, "rlow": 99}, params_t={"L": 3, "rlow": 99}, ladder=[{"rlow": 1}, {"rlow": 0, "L": 1}],
                    bounds={"rand": "ANY output sequence of the Rand source (every draw a fresh symbolic 64-bit value): strictly more than all seeds", "sizes": "SizeHandler = x mod (L+1)",
